@@ -2,6 +2,7 @@ import TensoraVerif.Model.Sexp
 import TensoraVerif.Model.Storage
 import TensoraVerif.Model.IRWire
 import TensoraVerif.Model.AlgebraWire
+import TensoraVerif.Model.GraphWire
 import TensoraVerif.Lemmas.PeepholeExact
 open TV
 
@@ -167,6 +168,14 @@ def handle (cmd : String) (args : List Sexp) : Sexp :=
   | "ECHOM", [m] =>
     match IR.Wire.moduleOf m with
     | some m => IR.Wire.moduleToSexp m
+    | none => Sexp.mk "bad-request" [.str "unknown-constructor"]
+  | "EXHAUST", [e, .list refs] =>
+    match Graph.Wire.idExprOf e, refs.mapM Sexp.toStr? with
+    | some e, some refs => Graph.Wire.idExprToSexp (Graph.exhaustAll e refs)
+    | _, _ => Sexp.mk "bad-request" [.str "unknown-constructor"]
+  | "CONTEXT", [e, .str i] =>
+    match Graph.Wire.idExprOf e with
+    | some e => Graph.Wire.contextToSexp (Graph.extractContext e i)
     | none => Sexp.mk "bad-request" [.str "unknown-constructor"]
   | "DESUGAR", [a] =>
     match Alg.Wire.assignOf a with
